@@ -28,7 +28,7 @@ import (
 )
 
 const (
-	Version     = "instr-v3"
+	Version     = "instr-v5"
 	ModulePath  = "github.com/biogo/hts"
 	HookPath    = ModulePath + "/simhook"
 	SimsyncPath = HookPath + "/simsync"
@@ -39,7 +39,7 @@ type Options struct {
 	RepoDir  string   // root of the hts working tree
 	SimrtDir string   // /verif/simrt (contains simhook/, bgzf_export.go.in)
 	OutDir   string   // scratch directory for rewritten files and overlay.json
-	StmtPkgs []string // import-path suffixes that get statement-level yields (R10)
+	StmtPkgs []string // import-path suffixes that get statement-level yields (R10); a "+" prefix selects the StmtYieldAll hook
 }
 
 // Stats counts what was rewritten.
@@ -174,13 +174,19 @@ func Run(opts Options) (*Stats, error) {
 		conf := types.Config{Importer: imp, Error: func(e error) { terrs = append(terrs, e) }}
 		conf.Check(ipath, fset, files, info)
 		stmtYields := false
+		stmtHook := "StmtYield"
 		for _, sfx := range opts.StmtPkgs {
+			hook := "StmtYield"
+			if strings.HasPrefix(sfx, "+") {
+				sfx, hook = sfx[1:], "StmtYieldAll"
+			}
 			if strings.HasSuffix(ipath, sfx) {
 				stmtYields = true
+				stmtHook = hook
 			}
 		}
 		for i, f := range files {
-			rw := &rewriter{fset: fset, info: info, pkg: bp.Name, file: filepath.Base(names[i]), st: st, stmtYields: stmtYields, terrs: terrs}
+			rw := &rewriter{fset: fset, info: info, pkg: bp.Name, file: filepath.Base(names[i]), st: st, stmtYields: stmtYields, stmtHook: stmtHook, terrs: terrs}
 			changed, err := rw.file_(f)
 			if err != nil {
 				return nil, fmt.Errorf("instrument: %s: %v", names[i], err)
@@ -319,6 +325,7 @@ type rewriter struct {
 	pkg, file  string
 	st         *Stats
 	stmtYields bool
+	stmtHook   string
 	terrs      []error
 
 	fn      string // enclosing function
@@ -823,15 +830,25 @@ func (rw *rewriter) addYields(body *ast.BlockStmt) {
 		for _, s := range list {
 			if _, isEmpty := s.(*ast.EmptyStmt); !isEmpty {
 				rw.count("R10.stmt-yield")
-				out = append(out, &ast.ExprStmt{X: hook("StmtYield", rw.site(s, "stmt", nil))})
+				out = append(out, &ast.ExprStmt{X: hook(rw.stmtHook, rw.site(s, "stmt", nil))})
 			}
 			out = append(out, s)
 		}
 		return out
 	}
+	skip := map[*ast.BlockStmt]bool{} // bodies of switch/select hold clauses, not statements
 	ast.Inspect(body, func(n ast.Node) bool {
 		switch x := n.(type) {
+		case *ast.SwitchStmt:
+			skip[x.Body] = true
+		case *ast.TypeSwitchStmt:
+			skip[x.Body] = true
+		case *ast.SelectStmt:
+			skip[x.Body] = true
 		case *ast.BlockStmt:
+			if skip[x] {
+				return true
+			}
 			x.List = do(x.List)
 		case *ast.CaseClause:
 			x.Body = do(x.Body)
